@@ -680,6 +680,7 @@ def probe_enant(w, op):
     if not w.real_enabled:
         return
     cls = _cls(sl)
+    cls_eq = cls + ("" if m.faithful() else ":unfaithful-stereo")
     st, e = _call(w, lambda: sl.real.enantiomer())
     if st != "ok":
         w.report({"C06"}, f"enantiomer|{st}{':' + type(e).__name__ if st == 'exc' else ''}|{cls}", repr(e))
@@ -716,7 +717,7 @@ def probe_enant(w, op):
             w.report({"C06"}, f"enantiomer|{name}|{st}{':' + type(val).__name__ if st == 'exc' else ''}|{cls}", repr(val))
             return
         if bool(val) != exp:
-            w.report({"C06"}, f"enantiomer|{name}|{'chiral-but-equal' if not exp else 'achiral-but-unequal'}|{cls}",
+            w.report({"C06"}, f"enantiomer|{name}|{'chiral-but-equal' if not exp else 'achiral-but-unequal'}|{cls_eq}",
                      repr(m.view())[:1500])
             return
     # twice
